@@ -111,6 +111,10 @@ structure TSet where
   /-- files: path ↦ template -/
   files : List (Str × Template)
   mods : List PyMod
+  /-- `TemplateLookup(strict_undefined=…)` -/
+  strict : Bool
+  /-- `TemplateLookup(include_error_handler=…)` is set (the handler returns a false value, i.e. re-raises) -/
+  ieh : Bool
   deriving DecidableEq, Repr
 
 def alookup {β} (k : Str) : List (Str × β) → Option β
@@ -623,7 +627,10 @@ def ctxGet (c : Ctx) (x : Str) : Value :=
   if x = sSelf then tok c.self
   else if x = sLocal then tok c.loc
   else if x = sParent then tok c.parent
-  else if x = sNext then tok c.next
+  else if x = sNext then
+    match c.next with
+    | some i => .nsref i
+    | none => .other          -- `Context.get/__getitem__` fall back to `builtins`: the function `next`
   else match alookup x c.data with
     | some v => .val v
     | none => .undefined
@@ -678,13 +685,43 @@ def buildImports (S : TSet) (fuel : Nat) (tu : Str) (t : Template) (cid : Nat) :
       buildImports S fuel tu t cid r d
     | none => buildImports S fuel tu t cid r d
 
-/-- `x = _mako_get_namespace(context, 'x')` for every namespace name among the callable's identifiers -/
-def fetchNsVars (S : TSet) (fuel : Nat) (tu : Str) (t : Template) (cid : Nat) :
-    List Str → List (Str × Nat) → M (List (Str × Nat))
+/-- Python's `<` on `str` (code points) -/
+def strLt : Str → Str → Bool
+  | [], [] => false
+  | [], _ :: _ => true
+  | _ :: _, [] => false
+  | a :: r, b :: q => if a < b then true else if b < a then false else strLt r q
+
+def insertName (x : Str) : List Str → List Str
+  | [] => [x]
+  | y :: r => if x = y then y :: r else if strLt x y then x :: y :: r else y :: insertName x r
+
+/-- `sorted(to_write)`: the identifiers of a callable, without repetition, in the order their declarations are emitted -/
+def sortNames (l : List Str) : List Str := l.foldr insertName []
+
+/-- The declarations `for ident in sorted(to_write)` of a callable, in that order: a def of the module gets a stub (no
+effect), a namespace name `x = _mako_get_namespace(context, 'x')`, any other name is read from `_import_ns` / the
+context – which with `strict_undefined` raises `NameError` right here when both lack it:
+`x = _import_ns.get('x', UNDEFINED); if x is UNDEFINED: try: x = context['x'] except KeyError: raise NameError`
+(the import dictionary first in the strict code path as well).  `skip` = the callable's own arguments. -/
+def declareVars (S : TSet) (fuel : Nat) (tu : Str) (t : Template) (cid : Nat) (skip localDefs : List Str)
+    (imp : Option (List (Str × Value))) : List Str → List (Str × Nat) → M (List (Str × Nat))
   | [], acc => pure acc
-  | x :: r, acc => do
-    let id ← getTagNs S fuel tu t cid x
-    fetchNsVars S fuel tu t cid r ((x, id) :: acc)
+  | x :: r, acc =>
+    if x ∈ skip ∨ x ∈ localDefs then declareVars S fuel tu t cid skip localDefs imp r acc
+    else if x ∈ t.nsNames then do
+      let id ← getTagNs S fuel tu t cid x
+      declareVars S fuel tu t cid skip localDefs imp r ((x, id) :: acc)
+    else if S.strict then do
+      let c ← getCtx cid
+      let v := match imp with
+        | some d => match alookup x d with
+          | some v => v
+          | none => ctxGet c x
+        | none => ctxGet c x
+      if v = .undefined then throw .name
+      else declareVars S fuel tu t cid skip localDefs imp r acc
+    else declareVars S fuel tu t cid skip localDefs imp r acc
 
 mutual
 def execItems (S : TSet) : Nat → Env → List Item → M Unit
@@ -790,16 +827,14 @@ def execCode (S : TSet) : Nat → CodeRef → Nat → List (Str × Val) → M Un
         | none => throw .type
         | some locals => do
           let imp ← if t.hasImports then some <$> buildImports S fuel r.tu t cid t.nss [] else pure none
-          let free := (freeNames t t.body).filter fun x => x ∉ t.pageNames ∧ x ∉ t.defNames ∧ x ∈ t.nsNames
-          let nsvars ← fetchNsVars S fuel r.tu t cid free []
+          let nsvars ← declareVars S fuel r.tu t cid t.pageNames t.defNames imp (sortNames (freeNames t t.body)) []
           execItems S fuel ⟨r.tu, t, cid, locals, imp, nsvars, true, t.defNames, none⟩ t.body
       | .defn n =>
         match t.findDef n with
         | none => throw .internal
         | some d => do
           let imp ← if t.hasImports then some <$> buildImports S fuel r.tu t cid t.nss [] else pure none
-          let free := (freeNames t d.body).filter fun x => x ∉ t.defNames ∧ x ∈ t.nsNames
-          let nsvars ← fetchNsVars S fuel r.tu t cid free []
+          let nsvars ← declareVars S fuel r.tu t cid [] t.defNames imp (sortNames (freeNames t d.body)) []
           execItems S fuel ⟨r.tu, t, cid, [], imp, nsvars, false, t.defNames, none⟩ d.body
       | .inline nsn dn =>
         match t.findNs nsn with
@@ -811,8 +846,7 @@ def execCode (S : TSet) : Nat → CodeRef → Nat → List (Str × Val) → M Un
             -- the defs written inside a `<%namespace>` tag are generated before `has_ns_imports` is recorded: free names
             -- are read with `context.get`, the namespaces of the module with `_mako_get_namespace`
             let siblings := tag.inline.map (·.1)
-            let nsn' := (freeNames t items).filter fun x => x ∉ siblings ∧ x ∈ t.nsNames
-            let nsvars ← fetchNsVars S fuel r.tu t cid nsn' []
+            let nsvars ← declareVars S fuel r.tu t cid [] siblings none (sortNames (freeNames t items)) []
             execItems S fuel ⟨r.tu, t, cid, [], none, nsvars, false, siblings, some nsn⟩ items
     | _ => throw .internal
 
@@ -827,7 +861,11 @@ def includeFile (S : TSet) : Nat → Nat → EvKind → Str → Option Str → L
     match setLookup S callable.tu with
     | .found bt => do
       let kwargs := kwargsForInclude (namedArgs bt) c.data (args.map fun (k, v) => (k, Val.lit v))
-      execCode S fuel callable lcid kwargs
+      -- two call sites: inside `try:` when the template has an `include_error_handler` (the handler is given the
+      -- exception and, answering false, lets it propagate), plain otherwise; both run the target with `ctx`, the
+      -- context `_populate_self_namespace` returned for the cleaned copy – never with the includer's `context`
+      if S.ieh then execCode S fuel callable lcid kwargs
+      else execCode S fuel callable lcid kwargs
     | _ => throw .internal
 end
 
